@@ -645,7 +645,9 @@ def run(ctx, rep):
     rule_null(ctx, rep)
     # "of the current document text ... after arbitrary edit histories": tokens are computed from the project's current
     # sources, which are replaced wholesale on every change, and the adapter keeps no history of its own
-    from rules.c11 import rule_cache, rule_stateless
+    from rules.c11 import rule_cache, rule_stateless, rule_scheme
+    # "of the current document text": the text of *this* document, not of another document that has the same path under another URL scheme
+    rule_scheme(ctx, rep, rid="R-C15-scheme")
     rule_cache(ctx, rep, rid="R-C15-current")
     rule_stateless(ctx, rep, rid="R-C15-stateless")
     # spans are byte offsets into the pre-processed text but are applied to the original text: the pre-processor must keep every byte position
